@@ -189,18 +189,18 @@ def core_axioms():
     A(z3.ForAll([v], z3.And(kind(v) >= 0, kind(v) <= 7), patterns=[kind(v)]))
     A(z3.ForAll([v], llen(v) >= 0, patterns=[llen(v)]))
     A(z3.ForAll([v], dlen(v) >= 0, patterns=[dlen(v)]))
-    # constructors
-    A(kind(mk_none) == K_NONE)
-    A(z3.ForAll([b], z3.And(kind(mk_bool(b)) == K_BOOL, bval(mk_bool(b)) == b), patterns=[mk_bool(b)]))
-    A(z3.ForAll([i], z3.And(kind(mk_int(i)) == K_INT, ival(mk_int(i)) == i), patterns=[mk_int(i)]))
-    A(z3.ForAll([r], z3.And(kind(mk_float(r)) == K_FLOAT, fval(mk_float(r)) == r), patterns=[mk_float(r)]))
-    A(z3.ForAll([s], z3.And(kind(mk_str(s)) == K_STR, sval(mk_str(s)) == s), patterns=[mk_str(s)]))
+    # constructors (stated over the raw accessor symbols: the Python-level wrappers fold these away)
+    A(_kind(mk_none) == K_NONE)
+    A(z3.ForAll([b], z3.And(_kind(mk_bool(b)) == K_BOOL, _bval(mk_bool(b)) == b), patterns=[mk_bool(b)]))
+    A(z3.ForAll([i], z3.And(_kind(mk_int(i)) == K_INT, _ival(mk_int(i)) == i), patterns=[mk_int(i)]))
+    A(z3.ForAll([r], z3.And(_kind(mk_float(r)) == K_FLOAT, _fval(mk_float(r)) == r), patterns=[mk_float(r)]))
+    A(z3.ForAll([s], z3.And(_kind(mk_str(s)) == K_STR, _sval(mk_str(s)) == s), patterns=[mk_str(s)]))
     # scalars are determined by kind + payload
-    A(z3.ForAll([v], z3.Implies(kind(v) == K_NONE, v == mk_none), patterns=[kind(v)]))
-    A(z3.ForAll([v], z3.Implies(kind(v) == K_BOOL, v == mk_bool(bval(v))), patterns=[bval(v)]))
-    A(z3.ForAll([v], z3.Implies(kind(v) == K_INT, v == mk_int(ival(v))), patterns=[ival(v)]))
-    A(z3.ForAll([v], z3.Implies(kind(v) == K_FLOAT, v == mk_float(fval(v))), patterns=[fval(v)]))
-    A(z3.ForAll([v], z3.Implies(kind(v) == K_STR, v == mk_str(sval(v))), patterns=[sval(v)]))
+    A(z3.ForAll([v], z3.Implies(_kind(v) == K_NONE, v == mk_none), patterns=[_kind(v)]))
+    A(z3.ForAll([v], z3.Implies(_kind(v) == K_BOOL, v == mk_bool(_bval(v))), patterns=[_bval(v)]))
+    A(z3.ForAll([v], z3.Implies(_kind(v) == K_INT, v == mk_int(_ival(v))), patterns=[_ival(v)]))
+    A(z3.ForAll([v], z3.Implies(_kind(v) == K_FLOAT, v == mk_float(_fval(v))), patterns=[_fval(v)]))
+    A(z3.ForAll([v], z3.Implies(_kind(v) == K_STR, v == mk_str(_sval(v))), patterns=[_sval(v)]))
     # dicts: distinct keys in insertion order; dhas/dget/didx tie keys to positions
     A(z3.ForAll([v, i, j], z3.Implies(z3.And(0 <= i, i < j, j < dlen(v)), dkey(v, i) != dkey(v, j)),
                 patterns=[z3.MultiPattern(dkey(v, i), dkey(v, j))]))
